@@ -1,4 +1,5 @@
 import Tfv.Model.Infer
+import Tfv.Model.InferSched
 import Tfv.Model.Sexp
 /-!
 Canonical rendering of inference results for the line protocol: the followed
@@ -89,6 +90,21 @@ def runInfer (L : Lang) (s : Schema) (args : List (Nat × Term)) : String :=
         let base := σ.vars.length
         let σ1 := allocVars σ 0 nw
         match applyT L engineFuel σ1 f (a.shift base) with
+        | .error e => " | ".intercalate (outs ++ [s!"E@{k}:{showErr e}"])
+        | .ok (σ2, r) => go σ2 r (k + 1) (outs ++ [renderResult σ2 r]) rest
+    go σ f 1 [renderResult σ f] args
+
+/-- the same run with a re-check order imposed (C18) -/
+def runInferS (L : Lang) (ord : List Nat → List Nat) (s : Schema) (args : List (Nat × Term)) : String :=
+  match instantiateS L ord engineFuel {} s with
+  | .error e => s!"E@0:{showErr e}"
+  | .ok (σ, f) =>
+    let rec go (σ : Store) (f : Term) (k : Nat) (outs : List String) : List (Nat × Term) → String
+      | [] => " | ".intercalate outs
+      | (nw, a) :: rest =>
+        let base := σ.vars.length
+        let σ1 := allocVars σ 0 nw
+        match applyTS L ord engineFuel σ1 f (a.shift base) with
         | .error e => " | ".intercalate (outs ++ [s!"E@{k}:{showErr e}"])
         | .ok (σ2, r) => go σ2 r (k + 1) (outs ++ [renderResult σ2 r]) rest
     go σ f 1 [renderResult σ f] args
